@@ -101,7 +101,11 @@ def rule_actions(chk, prog, E):
     """C17-a(5): each user flag is tested where it has to act; returns {action: bit}"""
     bits = {}
     # compress + sparse in the worker
-    f = prog.need_fn("process_block")
+    from ..anchors import worker_entry, fragment_finisher, block_run_dedup, sort_flag_decoder, export_adder
+    we = worker_entry(prog)
+    if not we:
+        raise AnalysisBroken("worker function of the block processor not found")
+    f = we[0]
     f.build()
     chk.analysed(f)
     calls = [c for c in f.calls() if slot_call(c) == ("struct.sqfs_compressor_t", "do_block")]
@@ -146,7 +150,10 @@ def rule_actions(chk, prog, E):
     if n == 0:
         chk.broke("sqfs_block_processor_end_file no longer marks a tail fragment")
     # dedup: fragment path and block writer
-    f = prog.need_fn("process_completed_fragment")
+    ff = fragment_finisher(prog)
+    if not ff:
+        raise AnalysisBroken("the function that looks fragments up in the hash table was not found")
+    f = ff[0]
     f.build()
     chk.analysed(f)
     hs = [c for c in f.calls() if norm_callee(c.callee) in ("hash_table_search_pre_hashed", "hash_table_search")]
@@ -159,7 +166,7 @@ def rule_actions(chk, prog, E):
             chk.ok("K1-action", "process_completed_fragment:search", c, "an identical fragment is searched only with user bit 0x%x clear" % bits["dedup"])
         else:
             chk.violation("K1-action", "process_completed_fragment:search", c, "fragment deduplication is not guarded by a user flag: dont_deduplicate cannot take effect")
-    bw = [g for g in prog.functions() if g.unit.src == "lib/sqfs/src/block_writer.c" and g.name == "deduplicate_blocks"]
+    bw = block_run_dedup(prog)
     if not bw:
         chk.broke("deduplicate_blocks not found in block_writer.c")
     for g in bw:
@@ -216,7 +223,8 @@ def cstr(f, v):
 def rule_keywords(chk, prog, E, bits):
     """C17-a(1): the sort file's keyword decoder ORs, for every keyword, exactly the bit whose point of action matches the keyword"""
     WANT = {"dont_compress": "compress", "dont_fragment": "fragment", "dont_deduplicate": "dedup", "nosparse": "sparse"}
-    f = [g for g in prog.functions() if g.name == "decode_flags" and g.unit.src.endswith("sort_by_file.c")]
+    from ..anchors import sort_flag_decoder
+    f = sort_flag_decoder(prog, cstr)
     if not f:
         chk.broke("decode_flags not found in sort_by_file.c")
         return
@@ -321,8 +329,16 @@ def rule_transport(chk, prog, E):
     # (function, what receives, selector of the receiving value, predicate for the source, description)
     f = prog.need_fn("fstree_sort_files").build()
     chk.analysed(f)
-    df = [c for c in f.calls() if norm_callee(c.callee) == "decode_flags"]
-    dp = [c for c in f.calls() if norm_callee(c.callee) == "decode_priority"]
+    from ..anchors import sort_flag_decoder
+    dnames = {g.name for g in sort_flag_decoder(prog, cstr)}
+    df = [c for c in f.calls() if norm_callee(c.callee) in dnames]
+    # the priority decoder: the static callee that parses a signed number (parse_int) into an i64 out-parameter
+    dp = []
+    for c in f.calls():
+        t = prog.fn(c.callee, f.unit) if c.callee else None
+        if t is not None and not isinstance(t, ExternFn) and t.unit is f.unit and not t.decl and \
+                any(norm_callee(x.callee) == "parse_int" for x in t.build().calls()):
+            dp.append(c)
     if not df or not dp:
         chk.broke("fstree_sort_files no longer calls decode_flags / decode_priority")
         return
@@ -442,9 +458,19 @@ def rule_order(chk, prog):
     def first(name):
         cs = [c for c in m.calls() if norm_callee(c.callee) == name]
         return cs[0] if cs else None
-    pp, so, pk = first("fstree_post_process"), first("fstree_sort_files"), first("pack_files")
+    pp, so = first("fstree_post_process"), first("fstree_sort_files")
+    # the packing step: the call in main to a function of the tool from which the block processor's stream constructor is reached
+    pk = None
+    for c in m.calls():
+        t = prog.fn(c.callee, m.unit) if c.callee else None
+        if t is None or isinstance(t, ExternFn) or t.decl or not t.unit.src.startswith("bin/gensquashfs/"):
+            continue
+        cl, _e, _u = prog.reachable_from([t], stop=lambda g: not g.unit.src.startswith("bin/gensquashfs/"))
+        if any(norm_callee(x.callee) == "sqfs_block_processor_create_ostream" for g in cl for x in g.build().calls()):
+            pk = c
+            break
     if not (pp and so and pk):
-        chk.broke("main no longer calls fstree_post_process / fstree_sort_files / pack_files directly")
+        chk.broke("main no longer calls fstree_post_process / fstree_sort_files / a packing function directly")
         return
     if m.inst_dominates(pp, so) and m.reaches(so.bb, pk.bb) and not m.reaches(pk.bb, so.bb):
         chk.ok("K11-order", "main:sort-before-pack", so, "the file list is built, then reordered by the sort file, then packed in that order")
@@ -507,10 +533,12 @@ def rule_export(chk, prog):
     if unit is None:
         chk.broke("dir_writer.c not in gensquashfs")
         return
-    f = unit.functions.get("add_export_table_entry")
-    if f is None or f.decl:
-        chk.broke("add_export_table_entry not found")
+    from ..anchors import export_adder
+    ea = export_adder(prog)
+    if not ea:
+        chk.broke("the function maintaining export_tbl.used was not found")
         return
+    f = ea[0]
     f.build()
     chk.analysed(f)
     inum = f.params[1]
